@@ -621,6 +621,7 @@ pub fn explore_batch(prop: &dyn Property, tier: Tier, seed: u64, runs: u64, nwor
                                 known: None,
                                 seed,
                                 run: 0,
+                                repeat: 0,
                                 case: case.clone(),
                             };
                             let path = write_replay(&rf, "hang");
@@ -812,19 +813,37 @@ pub fn run_check(prop: &dyn Property, tier: Tier) -> i32 {
             known: sfail.known.clone(),
             seed,
             run: *run,
+            repeat: 0,
             case: small.clone(),
         };
         let path = write_replay(&rf, "min");
         let rf0 = ReplayFile { case: case.clone(), detail: fail.detail.clone(), ..rf.clone() };
         let _ = write_replay(&rf0, "orig");
         // verify from the file in a fresh evaluation
-        let reproduced = match load_replay(&path) {
+        let mut reproduced = match load_replay(&path) {
             Ok(r) => matches!(evaluate(prop, &r.case), Ok(Err(f)) if f.clause == *clause),
             Err(_) => false,
         };
+        let mut flaky_note = String::new();
+        if !reproduced && !prop.noisy_clause(clause) {
+            // The simulator is deterministic (selftest/determinism.sh), so a failure that does not
+            // show on every evaluation of the identical case means the system under test is not a
+            // function of its input. Evaluate the original and the minimised case repeatedly.
+            const TRIES: u32 = 40;
+            for cand in [&small, case] {
+                let hits = (0..TRIES).filter(|_| matches!(evaluate(prop, cand), Ok(Err(f)) if f.clause == *clause)).count();
+                if hits > 0 {
+                    let rf2 = ReplayFile { case: cand.clone(), repeat: 10 * TRIES, ..rf.clone() };
+                    let _ = write_replay(&rf2, "min");
+                    flaky_note = format!(" [nondeterministic: the identical case fails in {hits} of {TRIES} evaluations; the replay file asks for up to {} evaluations]", 10 * TRIES);
+                    reproduced = true;
+                    break;
+                }
+            }
+        }
         if reproduced {
             println!(
-                "VIOLATION property={id} replay={} clause={clause} unlisted_classifier={:?} occurrences={} shrink_steps={steps} detail={}",
+                "VIOLATION property={id} replay={} clause={clause} unlisted_classifier={:?} occurrences={} shrink_steps={steps} detail={}{flaky_note}",
                 path.display(),
                 kn,
                 items.len(),
@@ -944,9 +963,19 @@ pub fn run_replay(prop: &dyn Property, path: &Path) -> i32 {
             return 2;
         }
     };
-    match evaluate(prop, &rf.case) {
+    let mut res = evaluate(prop, &rf.case);
+    let mut tries = 1;
+    while matches!(res, Ok(Ok(()))) && tries < rf.repeat {
+        res = evaluate(prop, &rf.case);
+        tries += 1;
+    }
+    match res {
         Ok(Ok(())) => {
-            println!("replay: property held");
+            if tries > 1 {
+                println!("replay: property held in {tries} evaluations");
+            } else {
+                println!("replay: property held");
+            }
             0
         }
         Ok(Err(f)) => {
